@@ -28,7 +28,7 @@ def make_case(seed, index, profile='validate', norm_cfg=None):
     if profile == 'nones':
         doc = g.nones_document(schema)
     elif rng.random() < 0.7:
-        doc = g.document(schema)
+        doc = g.document(schema, unknown=cfg.get('allow_unknown'))
     else:
         doc = g.arbitrary_document()
         for f in list(schema)[:2]:
